@@ -232,6 +232,141 @@ func observe(q *queue.Queue[int], ref []int, who string) *mc.Failure {
 	return nil
 }
 
+// observeLight is observe for long queues: Peek at the ends, around powers of
+// two and out of range instead of everywhere, Each in full and stopped at the
+// first and the last item.
+func observeLight(q *queue.Queue[int], ref []int, who string) *mc.Failure {
+	n := len(ref)
+	if n <= 40 {
+		return observe(q, ref, who)
+	}
+	if q.Len() != n || q.IsEmpty() {
+		return mc.Failf(0, "%s: Len=%d IsEmpty=%v want %d elements", who, q.Len(), q.IsEmpty(), n)
+	}
+	if got := q.Front(); got != ref[0] {
+		return mc.Failf(0, "%s: Front=%d want %d", who, got, ref[0])
+	}
+	for i := -n - 2; i <= n+2; i++ {
+		if a := max(i, -i); a > 3 && a < n-3 && a%16 > 1 && a%16 < 15 {
+			continue
+		}
+		v, ok := q.Peek(i)
+		j := i
+		if j < 0 {
+			j += n
+		}
+		if j < 0 || j >= n {
+			if ok || v != 0 {
+				return mc.Failf(0, "%s: Peek(%d)=(%d,%v) want (0,false) with %d elements", who, i, v, ok, n)
+			}
+		} else if !ok || v != ref[j] {
+			return mc.Failf(0, "%s: Peek(%d)=(%d,%v) want (%d,true) with %d elements", who, i, v, ok, ref[j], n)
+		}
+	}
+	if sl := q.Slice(); !eq(sl, ref) {
+		return mc.Failf(0, "%s: Slice (%d elements) differs from the reference (%d elements): %.200s want %.200s", who, len(sl), n, fmt.Sprint(sl), fmt.Sprint(ref))
+	}
+	for _, stop := range []int{1, n, n + 1} {
+		var got []int
+		q.Each(func(v int) bool { got = append(got, v); return len(got) < stop })
+		if !eq(got, ref[:min(stop, n)]) {
+			return mc.Failf(0, "%s: Each(stop after %d) yields %d items, first %.100s", who, stop, len(got), fmt.Sprint(got))
+		}
+	}
+	return nil
+}
+
+// qlong is one fixed history: a queue preallocated with Cap slots, the head
+// moved to offset Head, filled exactly (by Add or by Push), then grown by one
+// more element, extended, and drained from both ends.
+type qlong struct {
+	Cap  int    `json:"cap"`
+	Head int    `json:"head"`
+	Via  string `json:"via"` // add | push
+}
+
+func checkQLong(l qlong) *mc.Failure {
+	return mc.GuardT("queue-long", l, func() *mc.Failure {
+		q := queue.NewSize[int](l.Cap)
+		var ref []int
+		next, step := 1, 0
+		fail := func(f *mc.Failure, what string) *mc.Failure {
+			f.Step = step
+			f.Msg = fmt.Sprintf("NewSize(%d), head moved to %d, filled by %s; call %d (%s): %s", l.Cap, l.Head, l.Via, step, what, f.Msg)
+			return f
+		}
+		add := func() { q.Add(next); ref = append(ref, next); next++; step++ }
+		push := func() { q.Push(next); ref = append([]int{next}, ref...); next++; step++ }
+		pop := func(last bool) *mc.Failure {
+			step++
+			var v, w int
+			var ok bool
+			if last {
+				v, ok = q.PopLast()
+				w = ref[len(ref)-1]
+				ref = ref[:len(ref)-1]
+			} else {
+				v, ok = q.Pop()
+				w = ref[0]
+				ref = ref[1:]
+			}
+			if !ok || v != w {
+				return mc.Failf(0, "Pop/PopLast(last=%v) = (%d,%v), want (%d,true)", last, v, ok, w)
+			}
+			return nil
+		}
+		// move the head: Head+1 elements in, Head out (one element stays, so
+		// the head is not reset)
+		for i := 0; i <= l.Head; i++ {
+			add()
+		}
+		for i := 0; i < l.Head; i++ {
+			if f := pop(false); f != nil {
+				return fail(f, "Pop while moving the head")
+			}
+		}
+		for len(ref) < l.Cap {
+			if l.Via == "push" {
+				push()
+			} else {
+				add()
+			}
+		}
+		if f := observeLight(q, ref, "exactly full"); f != nil {
+			return fail(f, "fill")
+		}
+		if l.Via == "push" {
+			push()
+		} else {
+			add()
+		}
+		if f := observeLight(q, ref, "after growing"); f != nil {
+			return fail(f, "the element that makes the buffer grow")
+		}
+		for i := 0; i < 5; i++ {
+			push()
+			add()
+		}
+		if f := observeLight(q, ref, "after growing and 10 more"); f != nil {
+			return fail(f, "Push/Add after growing")
+		}
+		for i := 0; len(ref) > 0; i++ {
+			if f := pop(i%3 == 1); f != nil {
+				return fail(f, "drain")
+			}
+			if len(ref) == l.Cap/2 {
+				if f := observeLight(q, ref, "half drained"); f != nil {
+					return fail(f, "drain")
+				}
+			}
+		}
+		if f := observe(q, nil, "drained"); f != nil {
+			return fail(f, "drain")
+		}
+		return nil
+	})
+}
+
 func eq(a, b []int) bool {
 	if len(a) != len(b) {
 		return false
@@ -302,6 +437,41 @@ func main() {
 			}
 			var local counters
 			return makeBFS(&cf, &local, mc.HooksEnabled, 0).Replay(c)
+		},
+	}, mc.Harness{
+		Name: "queue-long",
+		Explore: func(r *mc.Run) {
+			var cases []qlong
+			var caps []int
+			for c := 1; c <= 40; c++ {
+				caps = append(caps, c)
+			}
+			caps = append(caps, mc.Pick(r, []int{63, 64, 65, 66, 67, 100, 127, 128, 129, 130, 200, 255, 256, 257, 300}, []int{63, 64, 65, 66, 67, 100, 127, 128, 129, 130, 200, 255, 256, 257, 300, 511, 512, 513, 1000, 1023, 1024, 1025, 4097})...)
+			for _, c := range caps {
+				for h := 0; h < c; h++ {
+					if c > 130 && h > 2 && h < c-2 && h != c/2 && h != c/2-1 && h != c/2+1 && h%32 > 1 && h%32 < 31 {
+						continue // large buffers: head at the ends, the middle and around multiples of 32
+					}
+					cases = append(cases, qlong{c, h, "add"}, qlong{c, h, "push"})
+				}
+			}
+			mc.ParallelFor(len(cases), r.Workers, func(i int) {
+				if f := checkQLong(cases[i]); f != nil {
+					r.Violation(mc.Case{Harness: "queue-long", Trace: mc.J(cases[i]), Msg: f.Msg, Step: f.Step})
+				}
+			})
+			n := int64(len(cases))
+			r.AddEval(n, n, n, n)
+			r.Bound("capacities", fmt.Sprint(caps))
+			r.Rule("for each preallocated capacity and each head offset (all offsets up to capacity 130, a boundary subset beyond): move the head, fill the buffer exactly by Add or by Push, add the element that makes it grow (rotate-then-grow), ten more from both ends, drain from both ends; observers against the reference sequence at each stage and every popped value")
+			r.Sample(qlong{66, 33, "add"})
+		},
+		Replay: func(c mc.Case) *mc.Failure {
+			var l qlong
+			if err := mc.Unmarshal(c.Trace, &l); err != nil {
+				return mc.Failf(-1, "bad trace: %v", err)
+			}
+			return checkQLong(l)
 		},
 	})
 }
